@@ -27,6 +27,8 @@ pub struct ApiEngine {
     known_ids: std::collections::BTreeSet<u16>,
     /// `call2`: the channel the argument's handle is made from
     other: Option<&'static Channel>,
+    /// a second receiver of every consumer's queue (what a worker thread would hold)
+    cons_rx: HashMap<String, crossbeam_channel::Receiver<ConsumerMessage>>,
 }
 
 fn s(tok: &str) -> Option<String> {
@@ -197,6 +199,7 @@ impl ApiEngine {
                 match ch.basic_consume(s(q)?, o) {
                     Ok(c) => {
                         let tag = c.consumer_tag().to_string();
+                        self.cons_rx.insert(cl.to_string(), c.receiver().clone());
                         self.consumers.insert(cl.to_string(), (ch.channel_id(), Some(c)));
                         format!("ret consumer x:{}", hex(tag.as_bytes()))
                     }
@@ -583,6 +586,40 @@ impl Engine for ApiEngine {
                     }
                 }
                 self.flush_sent(out);
+            }
+            // what the I/O thread does with a delivery / a server cancel for this consumer
+            ["cons-push", cl, what, rest @ ..] => {
+                let tx = match self.cons_tx.get(*cl) {
+                    Some(t) => t,
+                    None => return out.push("bad-op".into()),
+                };
+                let ch = self.consumers.get(*cl).map(|c| c.0).unwrap_or(1);
+                let m = match *what {
+                    "delivery" => {
+                        let dtag: u64 = rest.first().and_then(|t| t.parse().ok()).unwrap_or(0);
+                        ConsumerMessage::Delivery(ApiProbe::make_delivery(
+                            ch,
+                            amq_protocol::protocol::basic::Deliver { consumer_tag: "t".into(), delivery_tag: dtag, redelivered: false, exchange: "e".into(), routing_key: "k".into() },
+                            b"m".to_vec(),
+                            AmqpProperties::default(),
+                        ))
+                    }
+                    "server-cancelled" => ConsumerMessage::ServerCancelled,
+                    _ => return out.push("bad-op".into()),
+                };
+                out.push(if tx.send(m).is_ok() { "ok".into() } else { "ok gone".into() });
+            }
+            // a reader of the consumer's queue (a clone of its receiver, as a worker thread would hold)
+            ["cons-recv", cl] => {
+                out.push(match self.cons_rx.get(*cl) {
+                    None => "bad-op".into(),
+                    Some(rx) => match rx.try_recv() {
+                        Ok(ConsumerMessage::Delivery(d)) => format!("cmsg delivery {}", d.delivery_tag()),
+                        Ok(other) => format!("cmsg {}", format!("{:?}", other).split(|c: char| !c.is_alphanumeric()).next().unwrap_or("?")),
+                        Err(crossbeam_channel::TryRecvError::Empty) => "cmsg empty".into(),
+                        Err(crossbeam_channel::TryRecvError::Disconnected) => "cmsg disconnected".into(),
+                    },
+                });
             }
             ["cons", cl, op, rest @ ..] => {
                 let dl_arg = rest.first().and_then(|d| self.deliveries.get(*d).cloned());
